@@ -14,8 +14,8 @@ one of the accepted idioms:
 A state set filled from a *different* field (e.g. start states taken from the keys of the
 start-symbol map) is not a contribution of that component. `Union` additionally builds both weak
 translators over one counter captured by reference (fresh, disjoint ranges)."""
-from vfacts import strip, walk, method_name, root_path, known_facts, is_node
-from .prov import var_table
+from vfacts import must_pass_through, strip, walk, method_name, root_path, known_facts, is_node
+from .prov import origins, var_table
 
 RULE = 'UNIONCONTRIB'
 FLOOR = 30
@@ -257,7 +257,50 @@ def check_translators(unit, fn, em):
         em.ok(where, 'Union: translator counter', 'both translators share one by-reference counter', 'counter')
 
 
+_LW_DONE = set()
+
+
+def lastwrite(unit, fn, em, R, params):
+    """clause `lastwrite`: a table entry of the result written with a value combined from BOTH operands is the last write
+    that can hit that entry — no path leads from it to a `SetMtbdd` on the result whose value comes from one operand only
+    (a loop that copies one operand's whole table also yields that operand's entry for the same key, e.g. the empty tuple
+    of the leaf rules, and overwrites the union with one side of it; seed C07-9)."""
+    key = (unit.unit, fn.q, fn.line, R)
+    if key in _LW_DONE:
+        return
+    _LW_DONE.add(key)
+    cfg = fn.cfg()
+    if cfg is None:
+        return
+    pd = [p['d'] for p in params]
+    sets = []
+    for c in fn.calls():
+        if c['k'] == 'CXXMemberCallExpr' and method_name(c) == 'SetMtbdd' and (strip(c.get('obj')) or {}).get('d') == R and len(c.get('args') or []) == 2:
+            o = origins(fn, c['args'][1], stop=set(pd))
+            for _ in range(3):      # loop variables stand for the container they range over
+                for d in list(o):
+                    v = var_table(fn).get(d)
+                    if v and v['kind'] == 'rangevar' and is_node(v['node'].get('range')):
+                        o |= origins(fn, v['node']['range'], stop=set(pd))
+            sets.append((c, o & set(pd)))
+    for c, o in sets:
+        if len(o) < 2:
+            continue
+        singles = [x for x, ox in sets if len(ox) == 1]
+        pos = cfg.locate(c)
+        if pos is None:
+            continue
+        reach_ok, w = must_pass_through(cfg, pos, lambda n: any(n is x for x in singles), lambda n: False)
+        txt = unit.text(c, 70)
+        if reach_ok:
+            em.ok(c, txt, 'no later write of a one-operand value into the result\'s table', 'lastwrite')
+        else:
+            em.violation(c, txt, 'this entry is the union of both operands\' entries, but control can go on to `%s` (line %d), which stores a value taken from one operand only and, ranging over that operand\'s '
+                         'whole table, also hits this key: the union is overwritten with one side of it (the other operand\'s rules for this tuple are lost)' % (unit.text(w, 50), unit.loc(w)[1]), 'lastwrite')
+
+
 def run(unit, em):
+    _LW_DONE.clear()
     for fn in unit.functions:
         short = fn.q.replace('VATA::', '')
         if short not in ANCHORS or fn.body is None or len(fn.params) < 2:
@@ -296,6 +339,8 @@ def run(unit, em):
                 ev.add((0, 'rules'))
                 ev.add((1, 'rules'))
             branch = 'shared-table branch' if shared else 'line %d' % unit.loc(ret)[1]
+            if cls.startswith('BDD'):
+                lastwrite(unit, fn, em, R, fn.params[:2])
             for node, why in bad:
                 em.violation(node, unit.text(node, 80), why, 'source')
             for op in (0, 1):
